@@ -70,6 +70,19 @@ func (g *c16Gen) operand(d int) *Node {
 	case k < 6:
 		return Op("cpos", TBool, Op("+", TInt, g.v(), t))
 	case k < 7:
+		switch g.r.Intn(4) {
+		case 0:
+			// an if whose condition is a compile-time constant (literal or ConstantMap flag)
+			c := Lit(g.r.Intn(2) == 0)
+			if g.r.Intn(2) == 0 {
+				name := []string{"KT", "KF"}[g.r.Intn(2)]
+				c = ConstRef(name, name == "KT")
+			}
+			return If(c, g.operand(d-1), g.operand(d-1))
+		case 1:
+			// ... or a foldable comparison of constants
+			return If(Op(">", TBool, Lit(int64(g.r.Intn(3))), Lit(int64(1))), g.operand(d-1), g.operand(d-1))
+		}
 		return If(Op(">", TBool, g.v(), t), g.operand(d-1), g.operand(d-1))
 	case k < 8:
 		return Op("not", TBool, Op("=", TBool, Op("ci", TInt, g.v(), t), Lit(int64(0))))
